@@ -57,7 +57,9 @@ func runOptions(o opts, out *Output) {
 	nc := 0
 	for c := 0; c < o.n; c++ {
 		// every single variant at least once (round robin on the case index), the rest random
-		pick := func(xs []optChoice, salt int) optChoice { return xs[(c/salt+r.Intn(len(xs))*boolToInt(c >= 40))%len(xs)] }
+		pick := func(xs []optChoice, salt int) optChoice {
+			return xs[(c/salt+r.Intn(len(xs))*boolToInt(c >= 40))%len(xs)]
+		}
 		d := dicts[c%len(dicts)]
 		if c >= 40 {
 			d = dicts[r.Intn(len(dicts))]
@@ -87,15 +89,24 @@ func runOptions(o opts, out *Output) {
 			sig = 0 // the ordering options only concern traces
 		}
 		signal := []string{"traces", "logs", "metrics"}[sig]
-		g := &OGen{r: r.Fork(), Wide: r.Chance(60), Mono: monoPick(r)}
+		g := &OGen{r: r.Fork(), Wide: r.Chance(60)}
+		leanPct := 45
+		nb := 2 + r.Intn(3)
+		if c%3 == 1 {
+			// low-entropy histories: the same one or two names / keys / values in every batch, so that the state a
+			// sorter or delta encoder carries from one batch to the next meets equal rows at the batch boundary
+			g.Mono = 1 + r.Intn(2)
+			g.Wide = false
+			leanPct = 10
+			nb = 3 + r.Intn(4)
+		}
 		pr := newProducerRun(options...)
 		cons := arrow_record.NewConsumer() // default consumer
-		nb := 2 + r.Intn(3)
 		leanBase := 0
 		for b := 0; b < nb; b++ {
 			n := 1 + r.Intn(6)
 			data := genAnyN(g, r, sig, n)
-			if r.Chance(45) {
+			if r.Chance(leanPct) {
 				// dictionary pressure with lean items: unique names, 90-330 per batch (crossing 255 within a batch or over the
 				// history), repeated `rep` times (reset regime) or not (overflow regime)
 				data = leanBatch(sig, 90+r.Intn(240), 1+r.Intn(3)*r.Intn(2), &leanBase)
